@@ -35,9 +35,8 @@ def model_check(ctx, quick):
           ("Topo static: all sub-multigraphs x all permitted forests (parallel / triangle / self-loop nets)",
            "MC_static_small.cfg", ["FloodNext"])]
   if not quick:
-    jobs += [("Topo dynamic: 2 switches, 2 parallel cables", "MC_par.cfg", DYN_ACTIONS),
-             ("Topo dynamic: chain of 3 switches", "MC_chain.cfg", DYN_ACTIONS),
-             ("Topo dynamic: self-loop cable + neighbour", "MC_loop.cfg", DYN_ACTIONS),
+    # (MC_par.cfg / MC_chain.cfg / MC_tri16.cfg: larger dynamic nets, 5-10 min each, run by hand; see notes/C19.md)
+    jobs += [("Topo dynamic: self-loop cable + neighbour", "MC_loop.cfg", DYN_ACTIONS),
              ("Topo static: 3 switches, 2 cables per pair (4096 wirings)", "MC_static_k3x2.cfg", ["FloodNext"]),
              ("Topo static: 4 switches, 1 cable per pair (4096 wirings)", "MC_static_k4.cfg", ["FloodNext"])]
 
@@ -60,9 +59,13 @@ def model_check(ctx, quick):
 
 # --------------------------------------------------------------------------
 def tlc_scenarios(ctx, num, seed):
+  """Environment histories simulated by TLC from Topo.tla under the reference
+  controller.  Returns (scenarios for the real code, the same behaviours as
+  traces whose observations are the SPEC's own responses)."""
+  from harness.adapters_c19 import rec
   r = tlc.run(SPEC, "MCTopo", "EX_sim.cfg", workers=1, coverage=False, simulate=dict(num=num),
               depth=25, seed=seed, tag="C19")
-  out = []
+  out, spec_traces = [], []
   for i, b in enumerate(r.tagged("H")):
     # wires up at the start = final phys with the Cut/Restore steps undone
     ph = set(map(tuple, b["phys"]))
@@ -72,10 +75,22 @@ def tlc_scenarios(ctx, num, seed):
       elif st["a"] == "Restore":
         ph.discard(tuple(st["args"]["l"]))
     b["phys0"] = [list(x) for x in ph]
-    out.append(gen.from_tlc(b, b["net"], seed * 1000 + i))
+    sc = gen.from_tlc(b, b["net"], seed * 1000 + i)
+    out.append(sc)
+    tr = [rec(a="Init", n=sc["n"], np=sc["np"], wires=sc["wires"], phys=sc["phys"])]
+    for st, h in zip(sc["steps"], b["h"]):
+      e = h["exp"]
+      if st["a"] == "Flood":
+        prev = tr[-1]
+        tr.append(rec(a="Flood", s=st["s"], p=st["p"], rx=list(e["rx"]), storm=e["storm"],
+                      adj=prev["adj"], nf=prev["nf"]))
+      else:
+        tr.append(rec(a=st["a"], s=st.get("s", 0), d=st.get("d", 0), lk=list(st.get("lk", [0, 0, 0, 0])),
+                      adj=sorted(e["adj"]), evs=[list(x) for x in e["evs"]], nf=sorted(e["nf"])))
+    spec_traces.append(tr)
   if len(out) < num // 2:
     raise tlc.TLCError("scenario export produced %d behaviours" % len(out))
-  return out
+  return out, spec_traces
 
 
 def strip(tr):
@@ -96,8 +111,10 @@ def validate(ctx, traces, shards, cfg="Trace.cfg"):
     parts[k % len(parts)].append(i)
 
   def one(part):
+    # several single-worker JVMs run side by side: keep their GC thread pools small
     r, rej = tracecheck.validate(SPEC, "TraceTopo", cfg, [strip(traces[i]) for i in part],
-                                 tag="C19", timeout=1500)
+                                 tag="C19", timeout=1500,
+                                 extra_env={"JAVA_TOOL_OPTIONS": "-XX:ParallelGCThreads=2"})
     return part, r, rej
   bad, silent = {}, []
   tot = tlc.TLCResult()
@@ -146,93 +163,153 @@ def run_and_validate(ctx, label, scs, shards, procs=16):
     raise tlc.TLCError("%s: trace %d rejected at event %d without a violated clause (harness/spec "
                        "disagree about the environment): %s" % (label, t, m, traces[t][m] if m < len(traces[t]) else None))
   ctx.add_model("TraceTopo: validation of %d %s histories" % (len(traces), label), tot)
-  nev = 0
+  per = collections.defaultdict(lambda: dict(histories=0, events=0, rejected=0, clauses=collections.Counter()))
   for i, tr in enumerate(traces):
-    nev += len(tr) - 1
+    p = per[scs[i].get("kind", label)]
+    p["histories"] += 1
+    p["events"] += len(tr) - 1
     ctx.traces += 1
     ctx.case(core.fp([scs[i]["n"], scs[i]["np"], scs[i]["phys"], scs[i]["steps"]]),
              nontrivial=any(e["adj"] for e in tr),
              sample=dict(net=[scs[i]["n"], scs[i]["np"]], phys=scs[i]["phys"],
                          trace=[[e["a"], e["s"], e["d"], e["adj"], e["nf"]] for e in tr[1:7]]))
-  clauses = collections.Counter()
   for t, (k, why) in sorted(bad.items()):
-    clauses[why] += 1
+    p = per[scs[t].get("kind", label)]
+    p["rejected"] += 1
+    p["clauses"][why] += 1
     if why == "malformed-observation" and "exc" not in traces[t][k]:
       raise core.Machinery("malformed observation without exception: %r" % traces[t][k])
     sig = classify(scs[t], traces[t], k, why)
     ctx.report(sig, dict(kind="trace", scenario=scs[t], trace=traces[t], failing_step=k, clause=why,
                          note="TLC: the step is not permitted by Topo.tla (clause named)"))
-  ctx.notes["validation_" + label] = dict(histories=len(traces), events=nev, rejected=len(bad),
-                                          clauses=dict(clauses))
+  for k, p in per.items():
+    p["clauses"] = dict(p["clauses"])
+    ctx.notes["validation_" + k] = p
+  # vacuity guard on the implementation side: every action of the spec was exercised
+  acts = collections.Counter(e["a"] for tr in traces for e in tr[1:])
+  ctx.notes["implementation_steps_" + label] = dict(acts)
+  if label == "implementation":
+    for a in ("SwitchUp", "SwitchDown", "Advance", "Cut", "Restore", "Flood"):
+      if acts[a] == 0:
+        raise core.Machinery("no %s step was run on the implementation" % a)
+    if not any(e["a"] == "Flood" and sum(e["rx"]) > 0 for tr in traces for e in tr[1:]):
+      raise core.Machinery("no flood probe crossed a link")
   return traces, bad
 
 
-# negative controls: corrupt an accepted trace; TLC must reject it with that clause
-def negative_controls(ctx, scs, traces, bad):
-  good = [i for i in range(len(traces)) if i not in bad]
+# Controls of the trace validator, independent of the code under test: the
+# behaviours TLC simulated from Topo.tla (observations = the spec's own
+# responses) must all be accepted, and each corruption below must be rejected
+# with exactly the clause it violates.
+def _env(tr, k):
+  """environment after event k of a trace: (wires up, connected switches)"""
+  ph = set(map(tuple, tr[0]["phys"]))
+  cn = set()
+  for e in tr[1:k + 1]:
+    if e["a"] == "Cut":
+      ph.discard(tuple(e["lk"]))
+    elif e["a"] == "Restore":
+      ph.add(tuple(e["lk"]))
+    elif e["a"] == "SwitchUp":
+      cn.add(e["s"])
+    elif e["a"] == "SwitchDown":
+      cn.discard(e["s"])
+  return ph, cn
+
+
+def validator_controls(ctx, spec_traces):
   ctl = []
 
   def find(pred):
-    for i in good:
-      for k in range(1, len(traces[i])):
-        if pred(traces[i], k):
+    for i, tr in enumerate(spec_traces):
+      for k in range(1, len(tr)):
+        if pred(tr, k):
           return i, k
     return None
-  # 1 NO_FLOOD on a host-facing port
-  x = find(lambda tr, k: tr[k]["a"] == "Advance" and tr[k]["adj"])
+  # 1 NO_FLOOD on a host-facing port of a connected switch
+  x = find(lambda tr, k: tr[k]["a"] == "Advance" and _env(tr, k)[1])
   if x:
-    tr = copy.deepcopy(traces[x[0]])
-    hp = [tr[0]["n"] and 1, tr[0]["np"]]
-    tr[x[1]]["nf"] = sorted(tr[x[1]]["nf"] + [hp]) if hp not in tr[x[1]]["nf"] else tr[x[1]]["nf"]
+    tr = copy.deepcopy(spec_traces[x[0]])
+    s = sorted(_env(tr, x[1])[1])[0]
+    tr[x[1]]["nf"] = sorted(tr[x[1]]["nf"] + [[s, tr[0]["np"]]])
     ctl.append(("flood-host-port-blocked", tr[:x[1] + 1]))
-  # 2 a discovered live link vanishes from the adjacency (with its event)
-  x = find(lambda tr, k: tr[k]["a"] == "Advance" and tr[k]["d"] >= 6 and tr[k]["adj"] and tr[k]["adj"] == tr[k - 1]["adj"]
-           and tr[k - 1]["a"] == "Advance" and tr[k - 1]["d"] >= 6)
+
+  # 2 a known live link vanishes from the adjacency (announced properly) in an undisturbed network
+  def live_kept(tr, k):
+    if not (tr[k]["a"] == "Advance" and tr[k - 1]["a"] == "Advance" and tr[k]["d"] >= 6 and tr[k - 1]["d"] >= 6):
+      return False
+    ph, cn = _env(tr, k)
+    return any(tuple(l) in ph and l[0] in cn and l[2] in cn and l in tr[k - 1]["adj"] for l in tr[k]["adj"])
+  x = find(live_kept)
   if x:
-    tr = copy.deepcopy(traces[x[0]])
-    l = tr[x[1]]["adj"].pop(0)
-    tr[x[1]]["evs"] = [[0] + l]
+    tr = copy.deepcopy(spec_traces[x[0]])
+    ph, cn = _env(tr, x[1])
+    l = [l for l in tr[x[1]]["adj"] if tuple(l) in ph and l[0] in cn and l[2] in cn and l in tr[x[1] - 1]["adj"]][0]
+    tr[x[1]]["adj"].remove(l)
+    tr[x[1]]["evs"] = tr[x[1]]["evs"] + [[0] + l]
+    # removing it may also change what the forest has to look like: judge the adjacency clause only
     ctl.append(("adj-live-link-dropped", tr[:x[1] + 1]))
   # 3 the same link announced twice in a row
   x = find(lambda tr, k: any(e[0] == 1 for e in tr[k]["evs"]))
   if x:
-    tr = copy.deepcopy(traces[x[0]])
+    tr = copy.deepcopy(spec_traces[x[0]])
     e = [e for e in tr[x[1]]["evs"] if e[0] == 1][0]
     tr[x[1]]["evs"].append(list(e))
     ctl.append(("events-not-alternating", tr[:x[1] + 1]))
+
   # 4 both ends of a blocked redundant link flood again: a cycle
-  x = find(lambda tr, k: tr[k]["a"] == "Flood" and tr[k]["nf"])
+  def redundant(tr, k):
+    if tr[k]["a"] == "Flood":
+      return None
+    adjset = set(map(tuple, tr[k]["adj"]))
+    for l in tr[k]["adj"]:
+      if l[0] != l[2] and (l[2], l[3], l[0], l[1]) in adjset and [l[0], l[1]] in tr[k]["nf"] and [l[2], l[3]] in tr[k]["nf"]:
+        return l
+    return None
+  x = find(lambda tr, k: redundant(tr, k) is not None)
   if x:
-    tr = copy.deepcopy(traces[x[0]])
-    k = x[1] - 1
-    while k > 0 and tr[k]["a"] == "Flood":
-      k -= 1
-    if k > 0 and tr[k]["nf"]:
-      adjset = set(map(tuple, tr[k]["adj"]))
-      for l in tr[k]["adj"]:
-        if (l[2], l[3], l[0], l[1]) in adjset and [l[0], l[1]] in tr[k]["nf"] and [l[2], l[3]] in tr[k]["nf"]:
-          tr[k]["nf"] = [p for p in tr[k]["nf"] if p not in ([l[0], l[1]], [l[2], l[3]])]
-          ctl.append(("flood-cycle", tr[:k + 1]))
-          break
+    tr = copy.deepcopy(spec_traces[x[0]])
+    l = redundant(tr, x[1])
+    tr[x[1]]["nf"] = [p for p in tr[x[1]]["nf"] if p not in ([l[0], l[1]], [l[2], l[3]])]
+    ctl.append(("flood-cycle", tr[:x[1] + 1]))
   # 5 a flooded frame is delivered twice
   x = find(lambda tr, k: tr[k]["a"] == "Flood" and sum(tr[k]["rx"]) > 0)
   if x:
-    tr = copy.deepcopy(traces[x[0]])
+    tr = copy.deepcopy(spec_traces[x[0]])
     j = [i for i, c in enumerate(tr[x[1]]["rx"]) if c][0]
     tr[x[1]]["rx"][j] += 1
     ctl.append(("flood-delivery-mismatch", tr[:x[1] + 1]))
-  if len(ctl) < 4:
-    raise tlc.TLCError("could not build the negative controls (%d)" % len(ctl))
-  r, rej = tracecheck.validate(SPEC, "TraceTopo", "Trace.cfg", [strip(t) for _, t in ctl], tag="C19")
+  # 6 a link nobody ever wired
+  x = find(lambda tr, k: tr[k]["a"] == "Advance" and len(_env(tr, k)[1]) >= 2)
+  if x:
+    tr = copy.deepcopy(spec_traces[x[0]])
+    cn = sorted(_env(tr, x[1])[1])
+    l = [cn[0], tr[0]["np"], cn[1], tr[0]["np"]]
+    tr[x[1]]["adj"] = sorted(tr[x[1]]["adj"] + [l])
+    tr[x[1]]["evs"] = tr[x[1]]["evs"] + [[1] + l]
+    ctl.append(("adj-phantom-link", tr[:x[1] + 1]))
+  if len(ctl) < 5:
+    raise tlc.TLCError("could not build the validator's negative controls (%d): %s" % (len(ctl), [w for w, _ in ctl]))
+  batch = spec_traces + [t for _, t in ctl]
+  r, rej = tracecheck.validate(SPEC, "TraceTopo", "Trace_inv.cfg", [strip(t) for t in batch], tag="C19")
   why = {}
   for ln in r.prints:
     m = _bad.match(ln)
     if m:
       why[int(m.group(1)) - 1] = m.group(3)
-  for i, (want, tr) in enumerate(ctl):
-    if why.get(i) != want:
-      raise tlc.TLCError("negative control %d: expected TLC to reject with %s, got %s" % (i, want, why.get(i)))
-  ctx.notes["negative_controls"] = dict(rejected=[w for w, _ in ctl])
+  rejected = dict(rej)
+  for i in range(len(spec_traces)):
+    if i in rejected:
+      raise tlc.TLCError("positive control: a behaviour simulated from Topo.tla is rejected by TraceTopo.tla "
+                         "at event %d (%s)" % (rejected[i], why.get(i)))
+  for j, (want, tr) in enumerate(ctl):
+    i = len(spec_traces) + j
+    if i not in rejected or why.get(i) != want:
+      raise tlc.TLCError("negative control %d: expected TLC to reject with %s, got %s" % (j, want, why.get(i)))
+  ctx.add_model("TraceTopo: %d spec-simulated behaviours accepted, %d corrupted ones rejected"
+                % (len(spec_traces), len(ctl)), r)
+  ctx.notes["validator_controls"] = dict(accepted_spec_behaviours=len(spec_traces),
+                                         rejected_corruptions=[w for w, _ in ctl])
 
 
 # --------------------------------------------------------------------------
@@ -257,7 +334,8 @@ def probe_part(ctx, quick):
     # negative control: behaviours whose expectation names another datapath id / port must fail.
     # (two chunks, so that the engine replays them in worker processes: POX must never be
     # booted in this process, forked workers would share its scheduler's wake-up pipe)
-    ok = [i for i in core.replay.last_ok if behs[i][-1]["exp"]["adj"]]
+    # (chosen independently of how the code under test behaved)
+    ok = [i for i in range(len(behs)) if behs[i][-1]["exp"]["adj"]]
     if len(ok) < 2:
       raise tlc.TLCError("no probe behaviour to build the negative controls from")
     nb1 = copy.deepcopy(behs[ok[0]])
@@ -329,25 +407,22 @@ def run(ctx):
   else:
     for v in (0, 1, 2):
       static += gen.all_static(3, seed=seed, variants=(v,))
-    static += gen.all_static(4, seed=seed, limit=20000) + gen.all_static(5, seed=seed, limit=3000)
-  tr_s, bad_s = run_and_validate(ctx, "static", static, shards)
-  phase["static"] = tm.take()
-  nh = 80 if quick else 3000
+    static += gen.all_static(4, seed=seed, limit=4000) + gen.all_static(5, seed=seed, limit=600)
+  nh = 80 if quick else 1000
   hist = [gen.random_history(seed * 100003 + i, steps=30, selfloops=(i % 3 == 0)) for i in range(nh)]
-  nb = 16 if quick else 400
+  nb = 16 if quick else 150
   hist += [gen.random_history(seed * 100003 + 50000 + i, steps=24, maxn=12, selfloops=(i % 4 == 0))
            for i in range(nb)]
-  hist += [gen.random_history(seed * 100003 + 90000 + i, n=12, np=5, steps=16) for i in range(3 if quick else 60)]
-  hist += tlc_scenarios(ctx, 30 if quick else 1500, seed + 1)
-  tr_h, bad_h = run_and_validate(ctx, "dynamic", hist, shards)
-  phase["dynamic"] = tm.take()
-  negative_controls(ctx, static + hist, tr_s + tr_h,
-                    dict(list(bad_s.items()) + [(k + len(tr_s), v) for k, v in bad_h.items()]))
-  phase["negative_controls"] = tm.take()
+  hist += [gen.random_history(seed * 100003 + 90000 + i, n=12, np=5, steps=16) for i in range(3 if quick else 20)]
+  tsc, spec_traces = tlc_scenarios(ctx, 30 if quick else 500, seed + 1)
+  validator_controls(ctx, spec_traces[:200])
+  phase["scenarios_and_validator_controls"] = tm.take()
+  run_and_validate(ctx, "implementation", static + hist + tsc, shards)
+  phase["run_and_validate"] = tm.take()
   ctx.notes["bounds"] = dict(static=("all 16 multigraphs on 2 switches x 3 bring-up orders; 3 switches: " +
                                      ("all 1000 classes modulo swapping parallel cables + 500 sampled labelled ones"
                                       if quick else "all 4096 labelled multigraphs x 3 bring-up orders") +
-                                     "; %d / %d sampled on 4 / 5 switches" % ((100, 30) if quick else (20000, 3000))),
+                                     "; %d / %d sampled on 4 / 5 switches" % ((100, 30) if quick else (4000, 600))),
                              dynamic="%d random histories (<=5 switches) + %d (<=12 switches) + TLC-simulated ones"
                              % (nh, nb))
   ctx.exhaustive = False
